@@ -214,9 +214,19 @@ func runOne(t *testing.T, wl *Workload, cfg string, seed uint64, replay map[stri
 			s := simrt.New(tp)
 			cur = s
 			s.KeepLog = detail
+			s.TraceYields = detail && os.Getenv("VERIF_TRACE_YIELDS") != ""
 			e := &Env{T: t, S: s, WL: tp.St("workload"), FL: tp.St("faults"), Seed: seed, Cfg: parseCfg(cfg), Out: &out, Dir: dir, Detail: detail, T0: time.Now()}
 			simrt.S = s
-			wl.Run(e)
+			func() {
+				defer func() {
+					if r := recover(); r != nil {
+						buf := make([]byte, 1<<14)
+						n := runtime.Stack(buf, false)
+						out.Infra = fmt.Sprintf("harness panic on the root goroutine: %v\n%s", r, buf[:n])
+					}
+				}()
+				wl.Run(e)
+			}()
 			finished = true
 			e.Freeze()
 			f := e.frozen
@@ -884,6 +894,10 @@ func TestOne(t *testing.T) {
 	startWatchdog(time.Duration(envInt("VERIF_WD_S", 30)) * time.Second)
 	seed, _ := strconv.ParseUint(os.Getenv("VERIF_SEED1"), 10, 64)
 	r := runOne(t, workloads[name], os.Getenv("VERIF_CFG"), seed, nil, true)
+	if d := os.Getenv("VERIF_DUMP"); d != "" && os.Getenv("VERIF_TWICE") != "" {
+		os.Rename(d, d+".1")
+		r = runOne(t, workloads[name], os.Getenv("VERIF_CFG"), seed, nil, true)
+	}
 	r.Tape = nil
 	b, _ := json.MarshalIndent(r, "", " ")
 	fmt.Println(string(b))
